@@ -768,6 +768,16 @@ impl<'a, R: Rng> Gen<'a, R> {
             cands.push(format!("{key}{key}"));
             cands.push(key.replace('_', "-"));
             cands.push(key.replace('_', ""));
+            // decorated keys: array / path suffixes, and the literals of deserr's own sources around the key
+            // (suffix- or prefix-stripping "features")
+            cands.push(format!("{key}[]"));
+            cands.push(format!("{key}[0]"));
+            cands.push(format!("{key}."));
+            if !dict().strs.is_empty() {
+                let d = self.pick(&dict().strs).clone();
+                cands.push(format!("{key}{d}"));
+                cands.push(format!("{d}{key}"));
+            }
         }
         cands.retain(|c| c != key);
         if self.keys_plain() {
